@@ -264,6 +264,14 @@ func runProp(prop, tier, repo, verif string, workers int, seed int64, solverBin,
 	}
 	tLoad := time.Since(t0).Seconds()
 	cfgs := pd.Instances(tier, L)
+	if os.Getenv("SYMGO_COUNT") != "" {
+		tot := 0.0
+		for _, c := range cfgs {
+			tot += c.MaxWallS
+		}
+		fmt.Printf("%s %s: %d instances, sum of time caps %.0f s (%.1f h on 16 workers if every instance hit its cap)\n", prop, tier, len(cfgs), tot, tot/16/3600)
+		return 0
+	}
 	if only != "" {
 		var f []*HarnessCfg
 		for _, c := range cfgs {
